@@ -360,7 +360,7 @@ func C10(p *load.Prog, r *oblig.Run) {
 			okErr := false
 			if isRet && len(ret.Results) == 2 {
 				if ex, isEx := ret.Results[1].(*ssa.Extract); isEx {
-					if c, isC := ex.Tuple.(*ssa.Call); isC && c.Call.StaticCallee() == mn {
+					if c, isC := ex.Tuple.(*ssa.Call); isC && (c.Call.StaticCallee() == mn || mergePairHelper(p, c.Call.StaticCallee(), mn)) {
 						okErr = true
 					}
 				}
@@ -388,6 +388,15 @@ func C10(p *load.Prog, r *oblig.Run) {
 					if isTA {
 						if ex, isEx := ta.X.(*ssa.Extract); isEx {
 							call, _ = ex.Tuple.(*ssa.Call)
+						}
+					}
+					// through a helper that merges the pair it is handed: mergeIndividualPair(left, right, document)
+					if ex, isEx := v.(*ssa.Extract); isEx && ex.Index == 0 {
+						if hc, isC := ex.Tuple.(*ssa.Call); isC && mergePairHelper(p, hc.Call.StaticCallee(), mn) {
+							if !isField(su.Strip(hc.Call.Args[0]), "Left") || !isField(su.Strip(hc.Call.Args[1]), "Right") {
+								ok, why = false, "the merging helper is not called with the comparison's Left and Right in that order"
+							}
+							continue
 						}
 					}
 					if call == nil || call.Call.StaticCallee() != mn {
@@ -1267,4 +1276,45 @@ func c12Weights(p *load.Prog, r *oblig.Run) {
 	default:
 		o.OK(fmt.Sprintf("%d loop(s), each from the beginning of its list", n))
 	}
+}
+
+// mergePairHelper: h(left, right, ...) returns the individual asserted from MergeNodes(left, right, ...) called with its
+// own first two parameters in order, and MergeNodes' error on its error returns.
+func mergePairHelper(p *load.Prog, h, mn *ssa.Function) bool {
+	if h == nil || h == mn || !p.IsRepoFunc(h) || len(h.Blocks) == 0 || len(h.Params) < 2 || h.Signature.Results().Len() != 2 {
+		return false
+	}
+	calls := su.CallsTo(h, mn)
+	if len(calls) != 1 {
+		return false
+	}
+	mc := calls[0]
+	if len(mc.Call.Args) < 2 || su.Strip(mc.Call.Args[0]) != ssa.Value(h.Params[0]) || su.Strip(mc.Call.Args[1]) != ssa.Value(h.Params[1]) {
+		return false
+	}
+	okVal, okErr := false, true
+	for _, b := range h.Blocks {
+		ret, isRet := b.Instrs[len(b.Instrs)-1].(*ssa.Return)
+		if !isRet || len(ret.Results) != 2 {
+			continue
+		}
+		if k, isK := ret.Results[1].(*ssa.Const); isK && k.Value == nil {
+			// success: the asserted result of the merge
+			ta, isTA := ret.Results[0].(*ssa.TypeAssert)
+			if !isTA {
+				return false
+			}
+			ex, isEx := ta.X.(*ssa.Extract)
+			if !isEx || ex.Tuple != ssa.Value(mc) || ex.Index != 0 {
+				return false
+			}
+			okVal = true
+			continue
+		}
+		ex, isEx := ret.Results[1].(*ssa.Extract)
+		if !isEx || ex.Tuple != ssa.Value(mc) || ex.Index != 1 {
+			okErr = false
+		}
+	}
+	return okVal && okErr
 }
